@@ -48,7 +48,7 @@ if meta["confirmed"]:
     finally:
         sh("git -C /repo checkout -- .")
     meta["detected_by"] = sorted({r["check"] for r in meta["ran"] if r["exit"] == 1})
-out = os.path.join(ROOT, "seeded", f"{prop}-{i}")
+out = os.path.join(ROOT, "seeded", f"{prop}-{int(i) + int(os.environ.get('BANK_OFFSET', '0'))}")
 os.makedirs(out, exist_ok=True)
 shutil.copy(patch, os.path.join(out, "patch.diff")); shutil.copy(demo, os.path.join(out, "demo.py"))
 if os.path.exists(note): shutil.copy(note, os.path.join(out, "note.md"))
